@@ -421,6 +421,8 @@ class Buffer(gpp.UGenParameter, gpp.NodeParameter):
         previously created with ``alloc=False``.
         '''
 
+        if self._bufnum is None:
+            raise BufferAlreadyFreed('alloc')
         self._server.addr.send_msg(
             '/b_alloc', self._bufnum, self._frames,
             self._channels, fn.value(completion_msg, self))
